@@ -158,6 +158,62 @@ CHECKS["C17"] = dict(
     design_ref="6/C17",
     technique="TLA+ model (Database.tla) checked by TLC + TLC behaviours replayed on a real network + TLC trace validation",
 )
+CHECKS["C02"] = dict(
+    category="model_checking",
+    text="ObsEncoding.tla: the documented encoding and declared space of every observation leaf group (13 kinds: service, application, file, folder, nic, traffic, port, "
+    "host, users, link, acl, router, firewall) as a function of configuration and ground truth; TLC enumerates the complete finite component domain (61,527 states: "
+    "every enum value, thresholded counts up to high+2, 31 utilisation values incl. band boundaries and >100%, present/absent/deleted, node ON/not ON, scan on/off) and "
+    "checks the encoding inside the space. Every generator state (read from TLC's own dump) is fed to the REAL observation class (`observe`, `space`, `contains`), and "
+    "PrimaiteGymEnv runs on shipped scenarios and observation-option variants (nested/flattened, scan and NMNE/num-access/traffic/users toggles, flooding agents, "
+    "out-of-list ACL rules, capture off) log contains(obs) nested and flattened, every leaf below its size and per-episode space/action-space digests; TLC judges every "
+    "record against ObsEncodingTrace.tla.",
+    design_ref="6/C02",
+    technique="TLA+ encoding model (ObsEncoding.tla) enumerated by TLC + every model state replayed on the real observation classes + TLC validation of environment-level observations",
+)
+CHECKS["C07"] = dict(
+    category="model_checking",
+    text="Acl.tla: rule lists with optional fields, wildcard-mask address matching by explicit bit arithmetic (cross-checked against Bitwise), a declarative verdict "
+    "(lowest matching position, else implicit) and Add/Remove/Check/Load actions with hit counters; TLC builds every 3-position list over a 34-rule covering domain and "
+    "judges all 144 packets against the first-match scan, and runs every interleaving of add/overwrite/remove/check over 10 core rules (88k states; thorough +260k). "
+    "Simulated behaviours and seeded random stimuli (up to the real 24 positions) are executed through three doors - Python API, the agent-action requests on the router "
+    "list and the six firewall lists, scenario-file loading - and every event carries the verdict, deciding rule, and the table and counters read back from the objects; "
+    "TLC validates against AclTrace.tla. The port sentinel NONE(0) is read as 'unspecified' (DESIGN 11.3).",
+    design_ref="6/C07",
+    technique="TLA+ model (Acl.tla) bounded-exhaustively checked by TLC + behaviours replayed through three doors + TLC trace validation",
+)
+CHECKS["C08"] = dict(
+    category="model_checking",
+    text="Routes.tla (declarative best route: longest prefix, lowest metric, default last; a set on full ties) and Forwarding.tla (one unicast frame over hosts, "
+    "routers with static/default routes and TTL-lowering switches: deliver only at the owner, forward via a best route, TTL strictly decreases, exhausted TTL is "
+    "dropped, reachability; liveness: handling terminates, incl. routing loops); TLC enumerates all tables of <=2 (thorough <=3) routes over 7 prefixes x metrics x hops "
+    "x default x 6 destinations and 6 topologies. Every (table, destination) is replayed on a real RouteTable under two IPv4 embeddings; topologies read from TLC "
+    "behaviours are built through PrimaiteGame.from_config and every model frame plus ping/DNS/web/database/FTP/NTP exchanges between all ordered host pairs (cold and "
+    "warm ARP) are recorded per Frame identity (interface receive with TTL, forwarding decision, local hand-over, delivery) and validated by TLC (RoutesTrace / ForwardingTrace).",
+    design_ref="6/C08",
+    technique="TLA+ models (Routes.tla, Forwarding.tla) checked by TLC incl. liveness + model domain replayed on the real route table and networks + TLC trace validation of frame walks",
+)
+CHECKS["C14"] = dict(
+    category="model_checking",
+    text="Health.tla: one piece of software, one folder with two files, node scan clock and power; visible health changes only at the completion of a covering scan and "
+    "then equals the true health; true health changes only in explicit events; a fix completes exactly on its tick, folder scan/restore and node scan within the 5.2 "
+    "window and compulsorily while ON; ticks are non-atomic (completion phases in any order). TLC sweeps durations 0..3 in five safety and two liveness configurations "
+    "(0.8-1.4M states). Simulated behaviours are replayed on a real host in five variants (database with/without backup, web server, database client, web+database) "
+    "with tracer.watch reporting EVERY write of the four health fields together with its enclosing context; shipped data_manipulation runs give one trace per software "
+    "and folder; TLC validates against HealthTrace.tla.",
+    design_ref="6/C14",
+    technique="TLA+ model (Health.tla) checked by TLC incl. liveness + behaviours replayed with attribute-write interposition + TLC trace validation",
+)
+CHECKS["C20"] = dict(
+    category="model_checking",
+    text="ConfigSem.tla: the meaning of a scenario file as a set of facts - declared facts completed by the documented defaulting rules - and an abstract builder whose "
+    "result is independent of the order of independent keys (TLC explores every build order of two declarations, 44k states); ScenarioGen.tla has scenario descriptions "
+    "as states (topology x addressing x node types x rules at positions x routes x software mixes x users x files x agents), sampled by TLC. For every shipped scenario, "
+    "all scheduled episodes, loading test assets, hand-written probes and 60 (quick) / 1500 (thorough) generated members, the scenario dict and the built object graph "
+    "are flattened independently into facts and TLC judges Built = Expected(Declared) per fact kind per node (ConfigSemTrace.tla); each scenario is re-serialised with "
+    "permuted mapping keys / flow style / quoting and the seeded trajectories of the variants are compared.",
+    design_ref="6/C20",
+    technique="TLA+ semantic function (ConfigSem.tla) + TLC-sampled scenario family + TLC validation of declared-vs-built facts and of re-serialised variants' trajectories",
+)
 
 REASON_TODO = "check not built yet in this session (planned, see DESIGN.md 10); nothing is claimed for it"
 
